@@ -1377,8 +1377,11 @@ func ruleClosureIsolation(r *Run) {
 				if e.Kind != "static" || k < 0 || k >= len(e.Site.Common().Args) {
 					return false, ""
 				}
-				sites++
 				a := e.Site.Common().Args[k]
+				if origin(e.Caller) == origin(f) && rootOf(a) == root {
+					continue // the function calls itself and hands the same object on: decided by the other callers
+				}
+				sites++
 				if ld, ok := a.(*ssa.UnOp); ok && ld.Op == token.MUL {
 					return false, "" // loaded from memory: whose it is cannot be told here
 				}
